@@ -543,3 +543,208 @@ def kept_only_functions(prog):
             elif st["k"] in ("call", "ref") and not find_func(prog, *st["callee"]).get("annot"):
                 plain.add(tuple(st["callee"]))
     return kept - plain
+
+
+# ----------------------------------------------------------------------------- syntax view (Coq term of L2_Disc.MiniPy.mfn)
+# Pure transcription of what render_function prints.  The analysis view is derived from it IN COQ by
+# L2_Disc/Visitors.v:discover; check_discover compares that derivation with fn_term above.
+
+
+def coq_mexpr(e):
+    k = e[0]
+    if k == "lit":
+        return f"(MLit {V.to_coq(e[1])})"
+    if k == "param":
+        return f"(MParam {e[1]})"
+    if k == "local":
+        return f"(MLocal {e[1]})"
+    if k == "var":
+        return f"(MVar {hexs(e[1])})"
+    raise ValueError(k)
+
+
+def coq_spelling(prog, mname, st):
+    """The callee expression as render_function prints it (keep / ref statements never use the attribute form)."""
+    if st["k"] != "call":
+        st = dict(st, via="name" if st.get("via") != "alias" else "alias")
+    ref, _ = callee_ref(prog, mname, st)
+    cm, cn = st["callee"]
+    via = st.get("via", "name")
+    if cm != mname and via == "attr":
+        assert ref == f"{cm}.{cn}"
+        return f"(SpAttr {hexs(cm)} {hexs(cn)})"
+    if cm != mname and via == "alias":
+        return f"(SpAlias {hexs(ref)})"
+    assert ref == cn
+    return f"(SpName {hexs(ref)})"
+
+
+def mfn_term(prog, mod, name, depth=0):
+    """The Coq term of type MiniPy.mfn for function (mod, name): its text, the line numbers of its statements, the
+    names it mentions.  No decision of the analysis is taken here."""
+    if depth > 12:
+        raise RecursionError("call graph too deep / cyclic")
+    f = find_func(prog, mod, name)
+    lines, _, info = render_function(prog, mod, f)
+    src_lines = lines + [""]            # inspect.getsource ends with "\n": split gives a trailing ""
+    m = prog["modules"][mod]
+    stmts = []
+    for i, st in enumerate(f["stmts"]):
+        k = st["k"]
+        if k == "load":
+            stmts.append(f"MLoad {hexs(st['path'])}")
+            continue
+        callee = mfn_term(prog, st["callee"][0], st["callee"][1], depth + 1)
+        sp = coq_spelling(prog, mod, st)
+        if k == "call":
+            args = "[" + "; ".join(coq_mexpr(e) for e in st["args"]) + "]"
+            stmts.append(f"MCall {info[i]['line']} {sp} {callee} {args}")
+        elif k == "ref":
+            stmts.append(f"MApply {info[i]['line']} {sp} {callee}")
+        elif k == "keep":
+            pos = "[" + "; ".join(coq_mexpr(e) for e in st["pos"]) + "]"
+            kw = "[" + "; ".join(f"({hexs(n)}, {coq_mexpr(e)})" for n, e in st["kw"]) + "]"
+            stmts.append(f"MKeep {info[i]['line']} {info[i]['eline']} {info[i]['ref_line']} {hexs(st['path'])} {sp} {callee} {pos} {kw}")
+        else:
+            raise ValueError(k)
+    modvars = "[" + "; ".join(
+        f"({hexs(n)}, ({'true' if var_is_tracked(m['vars'][n]) else 'false'}, {V.to_coq(m['vars'][n])}, "
+        f"{hexs(prog['pkg'] + '/' + mod + '/' + n)}))" for n in f.get("reads", [])) + "]"
+    helpers = "[" + "; ".join(f"({hexs(n)}, {hexs(c)})" for n, c in
+                              [(LOGMOD, LOGMOD)] + [(h, f"{EXTMOD}/{h}") for h in f.get("ext", [])]) + "]"
+    annot = f"(Some {hexs(f['annot'])})" if f.get("annot") else "None"
+    params = "[" + "; ".join(coq_param(p) for p in f["params"]) + "]"
+    lines_c = "[" + "; ".join(hexs(l) for l in src_lines) + "]"
+    raises = f"(Some {hexs(f['raises'])})" if f.get("raises") else "None"
+    return (f"(MFn {hexs(prog['pkg'] + '/' + mod + '/' + name)} {hexs(name)} {raises} {lines_c} {params} {annot} "
+            f"{modvars} {helpers} [" + "; ".join(f"({s})" for s in stmts) + "])")
+
+
+DISCOVER_PRELUDE = """From Coq Require Import List String ZArith NArith Bool.
+From DDS Require Import Base.Bytes L0_Hash.PyVal L1_Args.ArgCtx L2_Disc.MiniPy L3_Sig.Program L2_Disc.Visitors L2_Disc.DiscCheck.
+Import ListNotations.
+Open Scope string_scope.
+"""
+
+# literals / variable values outside the generator's usual alphabet: every branch of is_ast_constant, untracked types
+STRESS_LITS = [V.f_(-0.0), V.f_(0.0), V.f_(float("nan")), V.f_(float("inf")), V.f_(float("-inf")), V.f_(-2.5), V.f_(1e300),
+               V.f_(5e-324), V.f_(-1e-300), V.i_(-5), V.i_(2**70), V.i_(-(2**70)), ["list", [V.i_(1)]], ["tuple", [V.i_(1), V.s_("a")]],
+               ["tuple", []], ["dict", [[V.s_("k"), V.i_(2)]]], ["path", b"a/b".hex()], V.s_("é\n'\"")]
+STRESS_VARS = [["tuple", [V.i_(1), V.i_(2)]], ["tuple", []], ["other", "set"], ["date", "datetime.date(2020, 1, 2)"]]
+
+
+def _stress(prog, rng):
+    """Mutations that keep the program inside the grammar of render_function / fn_term but reach rarely generated
+    shapes: dds.load statements anywhere, literals that are not ast.Constants, variables of untracked types,
+    repeated by-name mentions of one function (apply / keep / call in every order), helpers, raises."""
+    p = copy.deepcopy(prog)
+    mods = sorted(p["modules"])
+    for mn in mods:
+        m = p["modules"][mn]
+        for vn in list(m["vars"]):
+            if rng.random() < 0.3:
+                m["vars"][vn] = rng.choice(STRESS_VARS)
+        if rng.random() < 0.5:
+            m["vars"]["A_" + mn] = rng.choice(STRESS_VARS + VAR_VALUES)
+            m["vars"]["x0"] = rng.choice(VAR_VALUES)
+        for f in m["funcs"]:
+            extra = [v for v in m["vars"] if v not in f["reads"]]
+            if extra and rng.random() < 0.5:
+                f["reads"] = f["reads"] + rng.sample(extra, rng.randint(1, len(extra)))     # not sorted on purpose
+                rng.shuffle(f["reads"])
+            if rng.random() < 0.3:
+                f["ext"] = rng.sample(["helper_a", "helper_b", "aaa_helper"], rng.randint(1, 3))
+            if rng.random() < 0.2:
+                f["raises"] = rng.choice(["ValueError", "Exception"])
+            # more mentions of functions that are already mentioned (or of any earlier plain function)
+            for _ in range(rng.choice([0, 0, 1, 2, 3])):
+                cands = [tuple(st["callee"]) for st in f["stmts"] if "callee" in st]
+                if not cands:
+                    break
+                cm, cn = rng.choice(cands)
+                g = find_func(p, cm, cn)
+                kind = rng.choice(["ref", "ref", "keep", "call"])
+                via = rng.choice(["name", "attr", "alias"])
+                if kind == "call":
+                    st = {"k": "call", "callee": (cm, cn), "args": [["lit", rng.choice(LIT_VALUES + STRESS_LITS)] for _ in g["params"]], "via": via}
+                elif kind == "keep":
+                    st = {"k": "keep", "path": f"/s{rng.randrange(10**6)}", "callee": (cm, cn),
+                          "pos": [["lit", rng.choice(STRESS_LITS + LIT_VALUES)] for _ in g["params"][:rng.randint(0, len(g["params"]))]],
+                          "kw": [], "layout": rng.choice(["single", "multi"]), "via": "alias" if via == "alias" else "name"}
+                else:
+                    st = {"k": "ref", "callee": (cm, cn), "via": "alias" if via == "alias" else "name"}
+                _insert_stmt(f, rng.randint(0, len(f["stmts"])), st)
+            for _ in range(rng.choice([0, 0, 1, 2])):
+                _insert_stmt(f, rng.randint(0, len(f["stmts"])), {"k": "load", "path": f"/l{rng.randrange(100)}"})
+            for st in f["stmts"]:
+                for key in ("args", "pos"):
+                    for j, e in enumerate(st.get(key, [])):
+                        if rng.random() < 0.3:
+                            st[key][j] = ["lit", rng.choice(STRESS_LITS)]
+                        elif rng.random() < 0.2 and f["reads"]:
+                            st[key][j] = ["var", rng.choice(f["reads"])]
+                for j, (n, e) in enumerate(st.get("kw", [])):
+                    if rng.random() < 0.3:
+                        st["kw"][j] = [n, ["lit", rng.choice(STRESS_LITS)]]
+    return p
+
+
+def _insert_stmt(f, pos, st):
+    """Insert a statement at position pos, renumbering the references to later locals."""
+    for s in f["stmts"]:
+        for e in s.get("args", []) + s.get("pos", []) + [e for _, e in s.get("kw", [])]:
+            if e[0] == "local" and e[1] >= pos:
+                e[1] += 1
+    f["stmts"].insert(pos, st)
+
+
+def discover_cases(n_programs, seed):
+    """(label, prog, mod, name) for every function of: n random programs, their stressed variants, the C09 load
+    matrix, the C01 targeted scenarios."""
+    import random
+    rng = random.Random(seed)
+    progs_ = []
+    for k in range(n_programs):
+        p = gen_program(rng, allow_loads=bool(k % 2))
+        progs_.append((f"gen{k}", p))
+        progs_.append((f"stress{k}", _stress(p, rng)))
+    import c09
+    for pl in c09.PLACEMENTS:
+        for pr in c09.PRODUCERS:
+            for ap in (False, True):
+                for nl in (1, 2):
+                    progs_.append((f"c09:{pl}:{pr}:{ap}:{nl}", c09.build(pl, pr, ap, nl)))
+    import c01_targeted
+    for label, mk in c01_targeted.SCENARIOS:
+        for j, (kind, obj) in enumerate(mk()):
+            if kind == "prog":
+                progs_.append((f"c01:{label}:{j}", obj))
+    cases = []
+    for label, p in progs_:
+        for mn in sorted(p["modules"]):
+            for f in p["modules"][mn]["funcs"]:
+                cases.append((label, p, mn, f["name"]))
+    return len(progs_), cases
+
+
+def check_discover(n_programs=300, seed=1, shard=100, verbose=True):
+    """Compares, inside Coq, `discover (<syntax term>)` with the analysis view derived by fn_term, for every function
+    of the programs of discover_cases.  Returns the list of mismatches [(label, mod, name, message)]."""
+    from common import coq_eval_strings
+    nprog, cases = discover_cases(n_programs, seed)
+    exprs, kept = [], []
+    for (label, p, mn, fname) in cases:
+        try:
+            exprs.append(f"check_same {mfn_term(p, mn, fname)} {fn_term(p, mn, fname)}")
+            kept.append((label, mn, fname))
+        except RecursionError:
+            pass
+    res = coq_eval_strings(DISCOVER_PRELUDE, exprs, shard=shard, timeout=1800, label="discover")
+    bad = [(l, m, n, r) for (l, m, n), r in zip(kept, res) if r != "ok"]
+    if verbose:
+        nst = sum(len(find_func(p, mn, fn)["stmts"]) for (_, p, mn, fn) in cases)
+        print(f"check_discover: programs={nprog} functions compared={len(kept)} statements={nst} "
+              f"coqc calls={(len(exprs) + shard - 1) // shard} mismatches={len(bad)}")
+        for b in bad[:20]:
+            print("  MISMATCH", b)
+    return bad
